@@ -148,6 +148,33 @@ pub struct AssemblyCode {
     code: Vec<AsmLine>,
 }
 
+// Instructions that set N and Z from their own result, whatever the flags were
+fn sets_n_and_z(mnemonic: AsmMnemonic) -> bool {
+    matches!(
+        mnemonic,
+        AsmMnemonic::LDA
+            | AsmMnemonic::LDX
+            | AsmMnemonic::LDY
+            | AsmMnemonic::CMP
+            | AsmMnemonic::CPX
+            | AsmMnemonic::CPY
+            | AsmMnemonic::TAX
+            | AsmMnemonic::TAY
+            | AsmMnemonic::TXA
+            | AsmMnemonic::TYA
+            | AsmMnemonic::INX
+            | AsmMnemonic::INY
+            | AsmMnemonic::DEX
+            | AsmMnemonic::DEY
+            | AsmMnemonic::INC
+            | AsmMnemonic::DEC
+            | AsmMnemonic::AND
+            | AsmMnemonic::ORA
+            | AsmMnemonic::EOR
+            | AsmMnemonic::PLA
+    )
+}
+
 impl AssemblyCode {
     pub fn new() -> AssemblyCode {
         AssemblyCode {
@@ -579,12 +606,24 @@ impl AssemblyCode {
                             }
                             if let Some(v) = &x_register {
                                 if v.eq(&inst.dasm_operand) {
-                                    // Remove this instruction
-                                    remove_second = !inst.protected;
+                                    // The load sets N and Z too: it can be removed if they
+                                    // already describe X, or if the next instruction sets
+                                    // them again before anything can test them
+                                    iter.reset_peek();
+                                    let next_sets_flags = match iter.peek() {
+                                        Some(AsmLine::Instruction(i1)) => sets_n_and_z(i1.mnemonic),
+                                        _ => false,
+                                    };
+                                    iter.reset_peek();
+                                    if flags == FlagsState::X || next_sets_flags {
+                                        remove_second = !inst.protected;
+                                    }
                                 }
                             }
                             x_register = Some(inst.dasm_operand.clone());
-                            flags = FlagsState::X;
+                            if !remove_second {
+                                flags = FlagsState::X;
+                            }
                         }
                         AsmMnemonic::LDY => {
                             if let Some(v) = &accumulator {
@@ -599,12 +638,24 @@ impl AssemblyCode {
                             }
                             if let Some(v) = &y_register {
                                 if v.eq(&inst.dasm_operand) {
-                                    // Remove this instruction
-                                    remove_second = !inst.protected;
+                                    // The load sets N and Z too: it can be removed if they
+                                    // already describe Y, or if the next instruction sets
+                                    // them again before anything can test them
+                                    iter.reset_peek();
+                                    let next_sets_flags = match iter.peek() {
+                                        Some(AsmLine::Instruction(i1)) => sets_n_and_z(i1.mnemonic),
+                                        _ => false,
+                                    };
+                                    iter.reset_peek();
+                                    if flags == FlagsState::Y || next_sets_flags {
+                                        remove_second = !inst.protected;
+                                    }
                                 }
                             }
                             y_register = Some(inst.dasm_operand.clone());
-                            flags = FlagsState::Y;
+                            if !remove_second {
+                                flags = FlagsState::Y;
+                            }
                         }
                         AsmMnemonic::DEC | AsmMnemonic::INC => {
                             // The flags now describe the modified memory location
